@@ -38,23 +38,38 @@ Fixpoint sq_line (ind : bytes) (inrun : bool) (s : bytes) : bytes :=
       else (if inrun then sq_close ind else []) ++ c :: sq_line ind false s'
   end.
 
-(* the  while ((nl = strchr(t, NEWLINE)))  loop of ypr_text(): [cur] is the current line (reversed).
-   After a real newline the continuation line is indented by INDENT plus one blank, except when the
-   next character is a newline again (an empty line gets no blanks); at the very end of the text the
-   blanks are printed. *)
-Fixpoint text_lines (enc : bytes -> bytes) (ind : bytes) (s cur : bytes) : bytes :=
+(* the byte at the head of [s] is a blank (the C code reads nl[-1] and nl[1]; nl[1] at the end of the
+   text is the terminating NUL) *)
+Definition head_blank (s : bytes) : bool := match s with 32 :: _ => true | _ => false end.
+
+(* the  while ((nl = strchr(t, NEWLINE)))  loop of ypr_text(): [cur] is the current line t..nl (reversed).
+   Double-quoted text ([dq], the else branch of  if (flags & LYS_YPR_TEXT_SINGLEQUOTED) ): after the line
+   has gone through ypr_encode(), when
+        ((nl != t) && (nl[-1] == blank)) || ((flags & LYS_YPR_TEXT_SINGLELINE) && (nl[1] == blank))
+   - [cur] is not empty and ends in a blank, or [sl] and the next line starts with a blank - the newline is
+   printed as backslash n and the loop continues on the same output line (t = nl + 1; continue): nothing
+   is indented and the next line starts with an empty [cur] (so a newline directly after an escaped one has
+   nl == t and is judged by nl[1] only). This is the fix f628c31 for the blanks RFC 7950 6.1.3 strips.
+   Otherwise (and always for single-quoted text) a real newline is printed and the continuation line is
+   indented by INDENT plus one blank, except when the next character is a newline again (an empty line
+   gets no blanks); at the very end of the text the blanks are printed. *)
+Fixpoint text_lines (enc : bytes -> bytes) (ind : bytes) (dq sl : bool) (s cur : bytes) : bytes :=
   match s with
   | [] => enc (rev cur)
   | c :: s' =>
       if c =? 10 then
-        enc (rev cur) ++ [10] ++ (match s' with 10 :: _ => [] | _ => ind ++ [32] end)
-          ++ text_lines enc ind s' []
-      else text_lines enc ind s' (c :: cur)
+        if dq && (head_blank cur || (sl && head_blank s')) then
+          enc (rev cur) ++ [92; 110] ++ text_lines enc ind dq sl s' []
+        else
+          enc (rev cur) ++ [10] ++ (match s' with 10 :: _ => [] | _ => ind ++ [32] end)
+            ++ text_lines enc ind dq sl s' []
+      else text_lines enc ind dq sl s' (c :: cur)
   end.
 
 (* ypr_text(pctx, name, text, flags): (what is printed before the opening quote, the quoted text).
-   flags: LYS_YPR_TEXT_SINGLELINE = [single_line], LYS_YPR_TEXT_SINGLEQUOTED = [single_quoted].
-   LEVEL is a uint16_t, LEVEL++ wraps. *)
+   flags: LYS_YPR_TEXT_SINGLELINE = [single_line], LYS_YPR_TEXT_SINGLEQUOTED = [single_quoted]; the
+   SINGLELINE bit is cleared for a single-quoted text holding a single quote ([sl] is the bit afterwards,
+   which is also what the newline test above reads). LEVEL is a uint16_t, LEVEL++ wraps. *)
 Definition ypr_text_parts (shrink : bool) (level : N) (name s : bytes) (single_line single_quoted : bool)
   : bytes * bytes :=
   let quot := if single_quoted then 39 else 34 in
@@ -64,7 +79,7 @@ Definition ypr_text_parts (shrink : bool) (level : N) (name s : bytes) (single_l
   let ind := spaces (indent_w shrink lvl) in
   let head := if sl then ind0 ++ name ++ [32] else ind0 ++ name ++ [10] ++ ind in
   let enc := if single_quoted then sq_line ind false else ypr_encode in
-  (head, [quot] ++ text_lines enc ind s [] ++ [quot]).
+  (head, [quot] ++ text_lines enc ind (negb single_quoted) sl s [] ++ [quot]).
 
 Definition ypr_text (shrink : bool) (level : N) (name s : bytes) (single_line single_quoted : bool) : bytes :=
   let '(h, q) := ypr_text_parts shrink level name s single_line single_quoted in h ++ q.
